@@ -123,6 +123,24 @@ def goldens(rng):
         qname = b"".join(bytes([n]) + bytes([97 + (i % 26)]) * n for i, n in enumerate(labels)) + b"\0"
         msg = struct.pack("!HHHHHH", 0x4242, 0x8180, 1, 1, 0, 0) + qname + struct.pack("!HH", 1, 1) + bytes([0xc0, 12]) + struct.pack("!HHIH", 5, 1, 60, 2) + bytes([0xc0, 12])
         out.append(("dns_name_%d_%d" % (len(labels), sum(labels)), ether(m1, m2, 0x0800, ipv4(a4, b4, 17, lambda ps: udp(53, 4000, msg, ps)))))
+    # ICMPv6 error messages: Parameter Problem (its second word is a POINTER, RFC 4443 3.4 - no RFC 4884 length), Destination
+    # Unreachable / Time Exceeded (fifth octet = RFC 4884 length), each quoting more than 128 octets
+    def icmp6_err(typ, word2, quote, pseudo):
+        h = struct.pack("!BBH", typ, 0, 0) + word2
+        c = csum(pseudo(58, len(h) + len(quote)) + h + quote)
+        return h[:2] + struct.pack("!H", c) + word2 + quote
+    q6 = ipv6(a6, b6, [], 17, lambda ps: udp(33434, 40000, pay(136), ps))
+    out.append(("ip6_icmp6_paramprob_ptr40_long", ether(m1, m2, 0x86dd, ipv6(a6, b6, [], 58, lambda ps: icmp6_err(4, struct.pack("!I", 0x28), q6, ps)))))
+    out.append(("ip6_icmp6_paramprob_bigptr_long", ether(m1, m2, 0x86dd, ipv6(a6, b6, [], 58, lambda ps: icmp6_err(4, struct.pack("!I", 0x01000030), q6, ps)))))
+    out.append(("ip6_icmp6_unreach_len0_long", ether(m1, m2, 0x86dd, ipv6(a6, b6, [], 58, lambda ps: icmp6_err(1, bytes(4), q6, ps)))))
+    out.append(("ip6_icmp6_pkttoobig_long", ether(m1, m2, 0x86dd, ipv6(a6, b6, [], 58, lambda ps: icmp6_err(2, struct.pack("!I", 1280), q6, ps)))))
+    q4 = ipv4(a4, b4, 17, lambda ps: udp(33434, 40000, pay(132), ps))
+    def icmp4_err(typ, code, word2, quote):
+        h = struct.pack("!BBH", typ, code, 0) + word2
+        return h[:2] + struct.pack("!H", csum(h + quote)) + word2 + quote
+    out.append(("ip4_icmp_redirect_long", ether(m1, m2, 0x0800, ipv4(a4, b4, 1, icmp4_err(5, 1, bytes([10, 1, 2, 3]), q4)))))
+    out.append(("ip4_icmp_srcquench_long", ether(m1, m2, 0x0800, ipv4(a4, b4, 1, icmp4_err(4, 0, bytes([0, 7, 0, 9]), q4)))))
+    out.append(("ip4_icmp_fragneeded_mtu_long", ether(m1, m2, 0x0800, ipv4(a4, b4, 1, icmp4_err(3, 4, struct.pack("!HH", 0, 1400), q4)))))
     # short DNS responses whose LAST record is of a fixed-size type (A, AAAA) or ends in a name (MX, NS): lies on the record
     # length then make the decoder want more than the message holds
     q = bytes([1, 97, 2, 98, 99, 0]) + struct.pack("!HH", 1, 1)
@@ -140,6 +158,35 @@ def goldens(rng):
             cnt = 2 if name == "cname_a" else 1
             hdr = struct.pack("!HHHHHH", 0x5151, 0x8180, 1, cnt if sect == 1 else 0, 0, cnt if sect == 3 else 0)
             out.append(("dns_last_%s_s%d" % (name, sect), ether(m1, m2, 0x0800, ipv4(a4, b4, 17, lambda ps, m=hdr + q + tail: udp(53, 4000, m, ps)))))
+    return out
+
+
+def app_goldens(rng):
+    """independent inputs for the application-layer classes, which are entry points of their own: (name, class, bytes)"""
+    out = []
+    pay = lambda n: bytes(rng.randrange(1, 256) for _ in range(n))
+    rtp = lambda flags, pt, body: struct.pack("!BBHII", flags, pt, 0x1235, 2, 0xdeadbeef) + body
+    out.append(("rtp_padding_only", "RTP", rtp(0xa0, 0x60, bytes(6) + bytes([7]))))
+    out.append(("rtp_payload_padding", "RTP", rtp(0xa0, 0x60, pay(9) + bytes(3) + bytes([4]))))
+    out.append(("rtp_plain", "RTP", rtp(0x80, 0x61, pay(12))))
+    out.append(("rtp_csrc_ext_padding", "RTP", struct.pack("!BBHII", 0xb2, 0x62, 7, 8, 9) + struct.pack("!II", 0x11, 0x22) + struct.pack("!HHI", 0xbede, 1, 0x01020304) + pay(8) + bytes([0, 2])))
+    out.append(("rtp_padding_one", "RTP", rtp(0xa0, 0x60, bytes([1]))))
+    # BOOTP / DHCP: fixed part + cookie + options, END, PAD octets behind it
+    bootp = struct.pack("!BBBBIHH", 1, 1, 6, 0, 0x3903f326, 0, 0x8000) + bytes(16) + bytes([0, 0x11, 0x22, 0x33, 0x44, 0x55]) + bytes(10) + bytes(64) + bytes(128)
+    opts = bytes([53, 1, 1, 50, 4, 192, 0, 2, 50, 12, 4, 104, 111, 115, 116])
+    out.append(("dhcp_end", "DHCP", bootp + bytes([0x63, 0x82, 0x53, 0x63]) + opts + bytes([255])))
+    out.append(("dhcp_end_pads", "DHCP", bootp + bytes([0x63, 0x82, 0x53, 0x63]) + opts + bytes([255, 0, 0, 0, 0, 0])))
+    out.append(("dhcp_pad_between", "DHCP", bootp + bytes([0x63, 0x82, 0x53, 0x63]) + bytes([0, 53, 1, 2, 0, 0, 51, 4, 0, 0, 14, 16, 255])))
+    out.append(("dhcp_no_end", "DHCP", bootp + bytes([0x63, 0x82, 0x53, 0x63]) + opts))
+    # DHCPv6: SOLICIT with client id (DUID-LL), elapsed time, option request, IA_NA with a nested address
+    d6 = bytes([1, 0x12, 0x34, 0x56]) + struct.pack("!HH", 1, 10) + struct.pack("!HH", 3, 1) + bytes([0, 1, 2, 3, 4, 5]) + struct.pack("!HHH", 8, 2, 100) + struct.pack("!HHHH", 6, 4, 23, 24) \
+        + struct.pack("!HHIII", 3, 12 + 28, 9, 1000, 2000) + struct.pack("!HH", 5, 24) + bytes([0x20, 1, 0xd, 0xb8] + [0] * 11 + [5]) + struct.pack("!II", 300, 400)
+    out.append(("dhcp6_solicit", "DHCPv6", d6))
+    out.append(("dhcp6_relay", "DHCPv6", bytes([12, 1]) + bytes([0xfe, 0x80] + [0] * 13 + [1]) + bytes([0xfe, 0x80] + [0] * 13 + [2]) + struct.pack("!HH", 9, len(d6)) + d6))
+    # VXLAN over an Ethernet frame; DNS bare
+    out.append(("vxlan_eth", "VXLAN", struct.pack("!II", 0x08000000, 0x123456 << 8) + bytes(6) + bytes([2, 0, 0, 0, 0, 1]) + struct.pack("!H", 0x88b5) + pay(20)))
+    qn = bytes([3, 119, 119, 119, 2, 98, 99, 0])
+    out.append(("dns_bare_mx", "DNS", struct.pack("!HHHHHH", 7, 0x8180, 1, 1, 0, 0) + qn + struct.pack("!HH", 15, 1) + bytes([0xc0, 12]) + struct.pack("!HHIH", 15, 1, 60, 7) + struct.pack("!H", 10) + bytes([2, 109, 120, 0xc0, 16])))
     return out
 
 
